@@ -77,6 +77,8 @@ def history(ctx, srv, n, label):
             if cmap.get(c) not in s.clients:
                 continue
             s.cmd(cmap[c], a)
+            if a[:2] == [b'CLIENT', b'KILL']:
+                s.wait_loop(3)       # the victim is cleaned up at the end of the pass; the next request comes after it
             if a[0] == b'PUBLISH':
                 s.poll_all()
         s.quiesce()
